@@ -217,9 +217,10 @@ Inductive verb := VCreate | VGet | VUpdate | VPatch | VDelete.
 Definition call := (verb * key * bytes)%type.          (* verb, object, subresource *)
 
 (* [ENotServed]: the cluster does not serve the apiVersion / kind the operation names
-   (only operations of C13_GModel can produce it); [EOther]: any other error text; the
-   model never produces it *)
-Inductive err := EAlreadyExists | ENotFound | EPatchFailed | EJqFailed | ENotServed | EOther.
+   (only operations of C13_GModel can produce it); [EConflict]: 409, the resourceVersion of
+   an Update is outdated (only with another writer: C13_CModel); [EOther]: any other error
+   text; the model never produces it *)
+Inductive err := EAlreadyExists | ENotFound | EPatchFailed | EJqFailed | ENotServed | EConflict | EOther.
 
 Definition api_create (c : cluster) (k : key) (obj : json) : cluster * option err :=
   match cl_get k c with Some _ => (c, Some EAlreadyExists) | None => (cl_set k obj c, None) end.
